@@ -164,3 +164,12 @@ add(Gram("j1", Level([
 ]), short_flags="a", short_args="b", note="adjacent-restricted argument"))
 add(Gram("k1", None, short_flags="ps", names=("ps", ["point", "sw"], []), note="adjacent multi-value option, repeated"))
 add(Gram("k2", None, short_flags="rs", short_args="wh", names=("rswh", ["rect", "sw", "width", "height"], []), note="adjacent option-struct (help is --help only)"))
+
+add(Gram("h1", Level([
+    Named("switch", "a", ["alpha"]),
+    Named("arg", "b", ["beta"], arity="req"),
+]), short_flags="a", short_args="b", note="version configured"))
+add(Gram("h2", Level([
+    Named("switch", "v", ["verbose"]),
+    Cmds([Cmd(["add"], _c1_add)]),
+]), short_flags="vn", note="subcommand with its own version, fallback_to_usage"))
